@@ -67,3 +67,35 @@ def idempotent(case):
             if not (np.allclose(out.z1, s1, rtol=1e-8, atol=1e-14) and np.allclose(out.z2, s2, rtol=1e-8, atol=1e-14)):
                 bad.append(dict(function='pow2 on an array with a zero divisor', got=str(out.z2), expected=str(s2)))
     return dict(reproduced=bool(bad), failing=bad[:4], statement='Bicomplex f agrees with the idempotent decomposition e1 f(z1 - i z2) + e2 f(z1 + i z2)')
+
+
+@reg('C12.small')
+def small(case):
+    from numdifftools.multicomplex import Bicomplex
+    from ndvc.concrete import small_argument_cases
+    cnt, bad = small_argument_cases(Bicomplex)
+    return dict(reproduced=bool(bad), failing=bad[:3], samples=cnt,
+                statement='expm1, sin, sinh, tan, tanh near 0: every component agrees with the idempotent spec to 1e-12 relative')
+
+
+@reg('C12.containers')
+def containers(case):
+    """Bicomplex.__array_wrap__ on object arrays of every memory layout"""
+    from numdifftools.multicomplex import Bicomplex
+    bad = []
+    for shape, layout in [((3,), 'C'), ((2, 3), 'C'), ((2, 3), 'transposed-view'), ((2, 2), 'F'), ((3, 2), 'transposed-view'), ((2, 2, 2), 'transposed-view')]:
+        if layout == 'C':
+            arr = np.empty(shape, dtype=object)
+        elif layout == 'F':
+            arr = np.empty(shape, dtype=object, order='F')
+        else:
+            arr = np.empty(shape[::-1], dtype=object).T
+        for k, idx in enumerate(np.ndindex(shape)):
+            arr[idx] = Bicomplex(k + 1 + 0.5j, -(k + 1) + 0.25j * k)
+        out = Bicomplex.__array_wrap__(arr)
+        for idx in np.ndindex(shape):
+            if out.z1[idx] != arr[idx].z1 or out.z2[idx] != arr[idx].z2:
+                bad.append(dict(shape=shape, layout=layout, index=idx, got=(complex(out.z1[idx]), complex(out.z2[idx])),
+                                expected=(complex(arr[idx].z1), complex(arr[idx].z2))))
+                break
+    return dict(reproduced=bool(bad), failing=bad[:3], statement='__array_wrap__ keeps every number at its index for every memory layout')
